@@ -248,7 +248,14 @@ class StackStream(Stream):
 
     def generate(self, rng, tier):
         n = 300 if tier == "quick" else 4000
-        return [{"prog": gen_prog(rng, rng.randint(2, 5), rng.randint(3, 14))} for _ in range(n)]
+        out = [{"prog": gen_prog(rng, rng.randint(2, 5), rng.randint(3, 14))} for _ in range(n)]
+        # a few DEEP programs: 9-12 blocks open at once (solvers re-entered), a helper at every level
+        for k in range(3 if tier == "quick" else 20):
+            p = ["h", k % len(HELPERS)]
+            for depth in range(9 + k % 4):
+                p = ["with", 1 + (depth + k) % NSOL, ["seq", ["h", (depth + 2 * k) % len(HELPERS)], p]]
+            out.append({"prog": ["seq", p, ["h", 0]]})
+        return out
 
     def run(self, d):
         saved = list(lk.sol_list)
